@@ -40,10 +40,64 @@ func Clone(a Model) Model {
 	}
 
 	val := reflect.Indirect(reflect.ValueOf(a))
-	b := reflect.New(val.Type()).Interface()
-	aBytes, _ := json.Marshal(a)
-	_ = json.Unmarshal(aBytes, b)
-	return b
+	b := reflect.New(val.Type())
+	aBytes, err := json.Marshal(a)
+	if err == nil {
+		err = json.Unmarshal(aBytes, b.Interface())
+	}
+	if err != nil {
+		// encoding/json cannot represent every model (a map column keyed by
+		// real or boolean, a real that is not finite, a func field): copy by
+		// reflection rather than hand out a zero model
+		b = reflect.New(val.Type())
+		deepCopy(b.Elem(), val)
+	}
+	return b.Interface()
+}
+
+// deepCopy copies src into dst following pointers, slices and maps, so that the
+// copy shares no storage with the original
+func deepCopy(dst, src reflect.Value) {
+	switch src.Kind() {
+	case reflect.Ptr:
+		if src.IsNil() {
+			dst.Set(reflect.Zero(src.Type()))
+			return
+		}
+		n := reflect.New(src.Type().Elem())
+		deepCopy(n.Elem(), src.Elem())
+		dst.Set(n)
+	case reflect.Slice:
+		if src.IsNil() {
+			dst.Set(reflect.Zero(src.Type()))
+			return
+		}
+		n := reflect.MakeSlice(src.Type(), src.Len(), src.Len())
+		for i := 0; i < src.Len(); i++ {
+			deepCopy(n.Index(i), src.Index(i))
+		}
+		dst.Set(n)
+	case reflect.Map:
+		if src.IsNil() {
+			dst.Set(reflect.Zero(src.Type()))
+			return
+		}
+		n := reflect.MakeMapWithSize(src.Type(), src.Len())
+		for _, k := range src.MapKeys() {
+			v := reflect.New(src.Type().Elem()).Elem()
+			deepCopy(v, src.MapIndex(k))
+			n.SetMapIndex(k, v)
+		}
+		dst.Set(n)
+	case reflect.Struct:
+		for i := 0; i < src.NumField(); i++ {
+			if dst.Field(i).CanSet() {
+				deepCopy(dst.Field(i), src.Field(i))
+			}
+		}
+	default:
+		dst.Set(src)
+	}
 }
 
 // CloneInto deep copies a model into another one
@@ -58,8 +112,16 @@ func CloneInto(src, dst Model) {
 	if v := reflect.ValueOf(dst); v.Kind() == reflect.Ptr && !v.IsNil() {
 		v.Elem().Set(reflect.Zero(v.Elem().Type()))
 	}
-	aBytes, _ := json.Marshal(src)
-	_ = json.Unmarshal(aBytes, dst)
+	aBytes, err := json.Marshal(src)
+	if err == nil {
+		err = json.Unmarshal(aBytes, dst)
+	}
+	if err != nil {
+		s, d := reflect.Indirect(reflect.ValueOf(src)), reflect.ValueOf(dst)
+		if d.Kind() == reflect.Ptr && !d.IsNil() && d.Elem().Type() == s.Type() {
+			deepCopy(d.Elem(), s)
+		}
+	}
 }
 
 func Equal(l, r Model) bool {
